@@ -74,6 +74,10 @@ FIXED = [
   "with a start index such that the last message is numbered u32::MAX (e.g. one message, start index u32::MAX) both multi iterators panicked with 'attempt to add with overflow' at 'self.index += 1' before returning that message", "replays/examples/C09-last-index-u32-max.json"),
  ("KF-C10-1", "C10", "C10-lifecycle-start-u64-max", "fix: buffer_sort_messages doesn't overflow for a lifecycle with start time",
   "time sorting with a lifecycle table that contains an entry with start_time u64::MAX (the value Lifecycle::merge writes into a merged-away lifecycle) panicked in 'lifecycle start + timestamp' (attempt to add with overflow): the output was not a permutation of the input", "replays/examples/C10-lifecycle-start-u64-max.json"),
+ ("KF-C03-16", "C03", "C03-flst-cumulative-reservation", "fix: file transfer plugin reserves only 64k upfront",
+  "with the plugin's defaults (allowSave) every file-transfer announcement reserved up to 16 MiB for the announced size: a 491-byte input with a handful of announcements requested 71 MiB, a 1 MB file with 10 000 announcements would request 160 GB (allocation failure = abort)", "replays/examples/C03-flst-cumulative-reservation.json"),
+ ("KF-C03-17", "C03", "C03-get-log-info-app-count", "fix: get log info response with a corrupt app id count",
+  "a GET_LOG_INFO control response with a corrupt application count (65535) made parse_ctrl_log_info_payload reserve a vector for 65535 entries (3.4 MB) for a 30-byte message, on every text rendering of the message: 66 MiB requested for a 416-byte input", "replays/examples/C03-get-log-info-app-count.json"),
  ("KF-C18-1", "C18", "C18-payload_from_args-empty-string-or-raw", "fix: payload_from_args writes the length",
   "utils::payload_from_args wrote no u16 length prefix for an empty string/raw argument, so the encoded payload did not decode to the same arguments (a single empty raw value: 4 bytes written, 0 arguments decoded)",
   "replays/examples/C18-payload_from_args-empty-raw.json"),
